@@ -10,10 +10,11 @@ mkdir -p /tmp/val
 git -C /repo worktree add -q --detach $WT HEAD || exit 3
 cd $WT
 res_apply=ok
-git apply $SRC/patch.diff || res_apply=fail
+git apply $SRC/patch.diff 2>/dev/null || patch -s -p1 -F3 < $SRC/patch.diff || res_apply=fail; find . -name "*.orig" -delete
 demo_with=NA; demo_without=NA; suite=NA
 if [ $res_apply = ok ]; then
   changed=$(git diff --name-only | tr '\n' ' ')
+  git diff > /tmp/val/$ID.applied.diff
   suite=$(PYTHONPATH=$WT/src /venv/bin/python -m pytest -q -p no:cacheprovider -n 6 -x 2>&1 | tail -1)
   (cd /tmp && PYTHONPATH=$WT/src timeout 600 /venv/bin/python $SRC/demo.py > /tmp/val/$ID.with.log 2>&1); demo_with=$?
   git checkout -q -- .
@@ -24,7 +25,7 @@ git -C /repo worktree remove --force $WT
 echo "$ID apply=$res_apply suite=[$suite] demo_with=$demo_with demo_without=$demo_without changed=[${changed:-}]"
 if [ "$res_apply" = ok ] && [ "$demo_with" = 1 ] && [ "$demo_without" = 0 ] && echo "$suite" | grep -q "466 passed"; then
   mkdir -p /verif/seeded/$ID
-  cp $SRC/patch.diff $SRC/demo.py /verif/seeded/$ID/
+  cp $SRC/demo.py /verif/seeded/$ID/; cp /tmp/val/$ID.applied.diff /verif/seeded/$ID/patch.diff
   [ -f $SRC/notes.md ] && cp $SRC/notes.md /verif/seeded/$ID/
   /venv/bin/python - <<PY
 import json
